@@ -44,6 +44,7 @@ Fixpoint per_step (at_ : Z) (i : nat) (l : list hstep) : list (nat * nat) :=
       (match (if is_action_step s then C10_diag s else O) with O => [] | d => [(3%nat, (i * 10 + d)%nat)] end) ++
       (match (if is_action_step s then C13_diag s else O) with O => [] | d => [(4%nat, (i * 10 + d)%nat)] end) ++
       (if negb (is_action_step s) || stats_step_ok s then [] else [(2%nat, (5000 + i)%nat)]) ++
+      (if entries_stable s then [] else [(9%nat, i)]) ++
       (match C15_diag at_ s with O => [] | d => [(6%nat, (i * 10 + d)%nat)] end) ++
       (match C11_diag s with O => [] | d => [(7%nat, (i * 10 + d)%nat)] end) ++
       per_step at_ (S i) t
